@@ -8,6 +8,12 @@ TRUST = ("crosshair-tool 0.0.110 + z3 5.1.0 models of Python builtins; the state
          "every counterexample is replayed on the untraced code before it is reported")
 
 CHECKS = {
+ "C07": dict(level="model_checking", technique="CrossHair/z3 bounded symbolic execution: one inductive step of the real store classes from every valid pre-state, all observers compared with a dictionary reference model",
+             text="STEP lemma: for MemoryStore, FileStore (ShimFS), ProxyStore, IndexerStore, OverlayStore with empty fall-back, MountPointStore and the default global composition (quick: 4 of the 9 configurations), from each of 28 valid pre-states over a 6-key universe, each well-formed operation (store, metadata update, remove, makedir, recursive / empty removedir, reads) with payload length 0..2 and symbolic caller metadata leaves a state that equals the reference model through every observer (bytes, caller fields, key/name/is_dir/size/md5, listings, frame condition). The path tree is exhausted per (configuration, operation).",
+             design="§4 C07"),
+ "C15": dict(level="model_checking", technique="CrossHair/z3 bounded symbolic execution of OverlayStore: API-reached pre-states (removals then writes) chosen by solver decisions, one symbolic step, observers vs dictionary model, fall-back frame condition",
+             text="For every valid fall-back content over a 5-key universe, every history of <=1 removal and <=1 write (thorough <=2/<=2, FileStore/ShimFS in either role) followed by one more operation (7 kinds, symbolic metadata int): every observer of the overlay equals the model 'fall-back shadowed by writes, masked by removals' and the fall-back observed before and after is identical.",
+             design="§4 C15"),
  "C19": dict(level="model_checking", technique="CrossHair/z3 bounded symbolic execution of ResourceQuerySegment.to_absolute and Query.to_absolute against a POSIX-normpath reference model",
              text="Bounded exhaustive symbolic exploration: every directory depth <=3 (thorough 4) x every component-class vector of length <=4 (thorough 6) is covered by an exhausted path tree of the real to_absolute code; Query-level frame/idempotence obligations over <=3 segments.",
              design="§4 C19"),
